@@ -155,6 +155,51 @@ def cut_convs(tier, rng):
 
 
 # ---------------------------------------------------------------------------
+# C13: recipient lists with duplicates and case variants x status scripts
+
+def c13_cases(tier, rng):
+    cases = []
+    addrs = [b"Postmaster@x.org", b"postmaster@x.org", b"b@y.net"]
+    stat = [g.se(550, "5.1.1", b"no such user"), "ok", g.er(b"quota"), g.se(452, "4.2.2", b"full\nreally")]
+    maxlen = 3 if tier == "quick" else 4
+    for n in range(1, maxlen + 1):
+        for rcpts in itertools.product(addrs, repeat=n):
+            occ = list(range(n))
+            # in-contract status scripts: any sub-multiset of the occurrences in any order
+            scripts = [()]
+            for r in range(1, n + 1):
+                for sub in itertools.permutations(occ, r):
+                    scripts.append(sub)
+            if len(scripts) > 12:
+                scripts = [()] + rng.sample(scripts[1:], 11)
+            for sub in scripts:
+                statuses = [(rcpts[i], stat[(i + len(sub)) % len(stat)]) for i in sub]
+                for ret in ("ok", g.er(b"ret")):
+                    for path in ("data", "bdat"):
+                        for ls in (1, 0):
+                            if tier == "quick" and rng.random() < 0.5:
+                                continue
+                            c = g.Conv(dict(lmtp=1, lmtpsess=ls))
+                            c.add(b"LHLO x\r\n"); c.add(b"MAIL FROM:<s@x>\r\n")
+                            for a in rcpts:
+                                c.add(b"RCPT TO:<" + a + b">\r\n")
+                            dec = g.ddec(ret=ret, statuses=statuses)
+                            if path == "data":
+                                c.add(b"DATA\r\n"); c.add(b"body\r\n.\r\n", DATA=dec)
+                            else:
+                                c.add(b"BDAT 4\r\nbody", DATA=dec); c.add(b"BDAT 0 LAST\r\n")
+                            c.add(b"NOOP\r\n")
+                            cases.append(c.case(seg=rng.choice(["one", "line"]), rng=rng))
+    # out of contract on the BDAT path (deterministic there): unknown recipient, one status too many
+    for statuses in ([(b"nobody@x", "ok")], [(addrs[2], "ok"), (addrs[2], g.er(b"again"))]):
+        c = g.Conv(dict(lmtp=1, lmtpsess=1))
+        c.add(b"LHLO x\r\n"); c.add(b"MAIL FROM:<s@x>\r\n"); c.add(b"RCPT TO:<" + addrs[2] + b">\r\n"); c.add(b"RCPT TO:<" + addrs[0] + b">\r\n")
+        c.add(b"BDAT 4 LAST\r\nbody", DATA=g.ddec(statuses=statuses)); c.add(b"NOOP\r\n")
+        cases.append(c.case(seg="line"))
+    return cases
+
+
+# ---------------------------------------------------------------------------
 
 def shrink_resegment(case):
     """only re-segmentation: for monitors whose verdict depends on the conversation's structure"""
